@@ -888,6 +888,38 @@ let suite_stage t v =
            if List.sort compare ic <> mc then diff v (Printf.sprintf "cache@%d" k)
        | `TM (n, e, d) -> ignore (next t); st := fst (M.sstep md5_name !st (M.OTamper (n, e, d))));
       if v.diffs <> [] then stop := true
+    end else begin
+      (* the model and the implementation have diverged: the model's state is no longer a prediction of
+         anything. The implementation's own outputs are still read, and the oracles that need no model are
+         still evaluated on them (never as "predicted") *)
+      let k = !idx in incr idx;
+      ignore k;
+      (match op with
+       | `PR _ | `AG _ | `AA _ | `TM _ | `VH | `IM _ -> ignore (next t)
+       | `RC (p, _, _) ->
+           ignore (nb t);
+           let ns = string_of_name p.M.p_name and hs = string_of_name p.M.p_hash in
+           if not (List.mem hs (Hashtbl.find_all announced ns)) then Hashtbl.add announced ns hs
+       | `ST | `TF | `RS | `CL | `VR ->
+           let isn = parse_snap t in
+           List.iter (fun (tn, _, m) ->
+             if not (Filename.check_suffix tn ".lck") then
+             let ok = List.exists (fun (n, r, h, _) -> (if r = "" then n else r) = tn && List.mem h (Hashtbl.find_all announced n) && h = m) isn.slog in
+             if not ok then oracle v "delivered_content_not_validated" false) isn.sfinals;
+           last_snap := Some isn
+       | `RQ _ -> ignore (nz t)
+       | `SQ (n, _, h) ->
+           let ia = ni t in
+           (* C02: a positive answer that names a version needs a validated copy of THAT version, held or logged *)
+           (match !last_snap with
+            | Some sn when (ia = 2 || ia = 3) && h <> [] ->
+                let ns = string_of_name n and hs = string_of_name h in
+                let held = List.exists (fun (fn, e, _, m) -> fn = ns && e = "wait" && m = hs) sn.sfiles in
+                let logged = List.exists (fun (ln, _, lh, _) -> ln = ns && lh = hs) sn.slog in
+                if not (held || logged) then oracle v "positive_status_for_another_version" false
+            | _ -> ())
+       | `SC -> let nc = ni t in if nc >= 0 then ignore (times nc (fun () -> parse_cmp t))
+       | `CC -> let n = ni t in ignore (times n (fun () -> let nm = next t in let stt = next t in (nm, stt))))
     end) ops;
   (* C06: end of the resumption after a crash *)
   (match !crash_image, !last_snap with
@@ -1534,6 +1566,9 @@ let suite_race t v =
    | "ready" ->
        (* received = 0: the recovered file is still waiting for / under validation *)
        if fi "began" = 1 && (fi "full_at_ready" = 1 || fi "state_at_ready" = 0) then oracle v "ready_before_recovery_finished" false
+   | "over" ->
+       (* a damaged copy wrote over the staged file while the good request was streaming: never delivered *)
+       if fi "bad_content" > 0 then oracle v "delivered_content_not_validated" false
    | "hold" ->
        (* a held file whose predecessor is in the receive log (days back) comes out after a bounded number of re-examinations *)
        if fi "delivered" = 0 then oracle v "held_file_never_released_although_predecessor_logged" false
